@@ -146,6 +146,7 @@ func (node *Node) provideBlock(ctx context.Context, block wire.Block, height int
 		}
 
 		merkleTree.AddMerkleProof(*txid)
+		merkleTree.AddHash(*txid)
 		txs = append(txs, tx)
 	}
 
@@ -166,7 +167,7 @@ func (node *Node) provideBlock(ctx context.Context, block wire.Block, height int
 				return errors.Wrap(err, "fetch tx state")
 			}
 
-			txState := &client.Tx{
+			txState = &client.Tx{
 				Tx: tx,
 				State: client.TxState{
 					Safe:             true,
